@@ -8,6 +8,7 @@ lazily assigned class indices across registration histories is not decided.
 import re
 from .. import clangjson as cj
 from .. import ir
+from .. import norm
 from ..report import Report
 
 DRIVER = '#include "xtl/xmultimethods.hpp"\n#include "xtl/xvisitor.hpp"\n'
@@ -127,6 +128,55 @@ namespace wxtl
     }
 }
 '''
+
+
+def _split_targs(t):
+    out, cur, depth = [], "", 0
+    for ch in t:
+        if ch in "<([":
+            depth += 1
+        elif ch in ">)]":
+            depth -= 1
+        if ch == "," and depth == 0:
+            out.append(cur)
+            cur = ""
+        else:
+            cur += ch
+    if cur:
+        out.append(cur)
+    return out
+
+
+def _accept_helper(d, f):
+    """accept_impl(visited, vis) { return helper<A...>(visited, vis); }  ->  (helper pattern, {template parameter: argument text}) or None"""
+    body = ir.body(f)
+    sts = [x for x in ir.ekids(body)] if body else []
+    if len(sts) != 1 or sts[0].get("kind") != "ReturnStmt" or not ir.ekids(sts[0]):
+        return None
+    call = ir.strip(ir.ekids(sts[0])[0])
+    if call.get("kind") != "CallExpr":
+        return None
+    ks = ir.ekids(call)
+    names = [p["name"] for p in ir.params(f)]
+    if [norm.uncast(ir.sx(a)) for a in ks[1:]] != [("ref", names[0]), ("ref", names[1])]:
+        return None
+    cal = ir.strip(ks[0])
+    nm = cal.get("name") or (cal.get("referencedDecl") or {}).get("name")
+    if not nm:
+        return None
+    txt = re.sub(r"\s+", "", d.text(call))
+    m = re.search(r"(?<![A-Za-z0-9_])%s<(.*)>\(%s,%s\)$" % (re.escape(nm), re.escape(names[0]), re.escape(names[1])), txt)
+    if not m:
+        return None
+    targs = _split_targs(m.group(1))
+    cands = [x for x in ir.functions(d, nm) if ir.is_template_pattern(d, x) and ir.body(x) is not None and len(ir.params(x)) == 2]
+    if len(cands) != 1:
+        return None
+    tpl = d.parent_of(cands[0])
+    tps = [x.get("name") for x in (tpl or {}).get("inner", ()) if x.get("kind") in ("TemplateTypeParmDecl", "NonTypeTemplateParmDecl", "TemplateTemplateParmDecl")]
+    if len(tps) < len(targs) or any(t is None for t in tps[:len(targs)]):
+        return None
+    return cands[0], dict(zip(tps, targs))
 
 
 def rule_policy(rep):
@@ -499,6 +549,41 @@ def run(tier):
     if f:
         check(rep, "C17.args", d, f, FU + "::dispatch", "forwards all arguments", canon_fn(d, f), [["return m_backend.dispatch(pack(p0), pack(p1))"]],
               "dispatch(args..., udargs...)")
+    # ---- casting policies: the handler must receive the object that was dispatched, so the conversion from the base reference is the language's own
+    #      derived-class conversion (static_cast / dynamic_cast adjust the address for a base that is not at offset 0; a reinterpreting cast does not) ----
+    for cname, kinds_ok in (("static_caster", ("CXXStaticCastExpr", "CXXDynamicCastExpr")), ("dynamic_caster", ("CXXDynamicCastExpr",))):
+        f = get(cname, "cast")
+        if not f:
+            continue
+        par = ir.params(f)[0].get("name")
+        rets = [x for x in ir.walk_expr(ir.body(f)) if x.get("kind") == "ReturnStmt" and ir.ekids(x)]
+        bad = inc = None
+        for r_ in rets:
+            e = ir.strip(ir.ekids(r_)[0])
+            k_ = e.get("kind")
+            if k_ in ("CXXReinterpretCastExpr", "CXXConstCastExpr") or any(x.get("kind") == "CXXReinterpretCastExpr" for x in ir.walk_expr(e)):
+                bad = (r_, "returns `%s`: a reinterpreting cast does not adjust the address when the dispatched base is not the first base of the handler's type, "
+                           "the handler then receives a reference that is not the object passed to dispatch()" % d.text(e)[:60])
+                break
+            if k_ in kinds_ok or (k_ == "CXXStaticCastExpr" and cname == "dynamic_caster"):
+                src = norm.uncast(ir.sx(ir.ekids(e)[0])) if ir.ekids(e) else None
+                to = re.sub(r"\s+", "", ir.wtype(e) or ir.qtype(e))
+                if src != ("ref", par) or to not in ("T&", "T"):
+                    bad = (r_, "returns `%s`, expected the cast of the parameter `%s` to T&" % (d.text(e)[:60], par))
+                    break
+                if k_ not in kinds_ok:
+                    inc = (r_, "dynamic_caster converts with static_cast: whether that is checked elsewhere is not decided")
+            else:
+                inc = (r_, "return expression `%s` is not a named cast of the parameter" % d.text(e)[:60])
+        if not rets:
+            inc = (f, "no return statement")
+        if bad:
+            rep.violates("C17.args", cname + "::cast", "the handler's argument is the dispatched object", where=d.where(bad[0]), detail=bad[1])
+        elif inc:
+            rep.inconclusive("C17.args", cname + "::cast", "the handler's argument is the dispatched object", where=d.where(inc[0]), detail=inc[1])
+        else:
+            rep.holds("C17.args", cname + "::cast", "the handler's argument is the dispatched object", where=d.where(f), detail="%d return(s), each %s<T&>(%s)" % (
+                len(rets), "static_cast" if cname == "static_caster" else "dynamic_cast", par))
     # ---- visitors ----
     for const, label in ((False, "base_visitable<R,false>"), (True, "base_visitable<R,true>")):
         f = get("base_visitable", "accept_impl", lambda f, const=const: ptypes(f)[0].startswith("const ") == const)
@@ -507,6 +592,19 @@ def run(tier):
             # configured policy catch_all<R, [const] T>::on_unknown_visitor(visited, vis) decides
             cv = "true" if const else "false"
             pv, pvis = [p["name"] for p in ir.params(f)]
+            f0 = f
+            tsub = {}
+            hf = _accept_helper(d, f)
+            if hf is not None:
+                # the body is one call of a helper template with the two parameters: the helper is analysed instead, its template parameters
+                # replaced by the arguments the call names
+                f, tsub = hf
+                pv, pvis = [p["name"] for p in ir.params(f)]
+
+            def tapply(t_):
+                if not tsub:
+                    return t_
+                return re.sub(r"(?<![A-Za-z0-9_:])(%s)(?![A-Za-z0-9_])" % "|".join(re.escape(k_) for k_ in tsub), lambda m_: tsub[m_.group(1)], t_)
             casts = {}
             aliases = {x.get("name"): re.sub(r"\s+", "", (x.get("type") or {}).get("qualType", "")) for x in ir.walk_expr(f) if x.get("kind") == "TypeAliasDecl"}
             for v in ir.walk_expr(f):
@@ -516,6 +614,7 @@ def run(tier):
                         to = re.sub(r"\s+", "", ir.qtype(dc[0]))
                         for k_, v_ in aliases.items():
                             to = to.replace(k_, v_)
+                        to = tapply(to)
                         casts[v.get("name")] = (to, ir.sx(ir.ekids(dc[0])[0]))
             bad = None
             n_ok = n_fail = 0
@@ -568,7 +667,7 @@ def run(tier):
                     visit = rt[0] == "call" and rt[1] == ("mem", ("ref", pname), "visit") and tuple(rt[2:]) == (("ref", pv),)
                     T_ = "constT" if const else "T"
                     unknown = rt[0] == "call" and "on_unknown_visitor" in ir.show(rt[1]) and tuple(rt[2:]) == (("ref", pv), ("ref", pvis)) and \
-                        re.search(r"(?<![A-Za-z0-9_])catch_all<R,%s>::on_unknown_visitor" % T_, re.sub(r"\s+", "", d.text(chosen(rn)))) is not None
+                        re.search(r"(?<![A-Za-z0-9_])catch_all<R,%s>::on_unknown_visitor" % T_, re.sub(r"\s+", "", tapply(d.text(chosen(rn))))) is not None
                     if okp is True and visit:
                         n_ok += 1
                     elif okp is False and unknown:
@@ -585,7 +684,7 @@ def run(tier):
                 if not bad and (n_ok == 0 or n_fail == 0):
                     bad = "expected a visiting and a catch_all path (%d, %d)" % (n_ok, n_fail)
             (rep.violates if bad else rep.holds)("C17.err", label + "::accept_impl", "visit on successful cast, else the configured catch_all", where=d.where(f),
-                                                detail=bad or "%d visiting, %d catch_all path(s)" % (n_ok, n_fail))
+                                                detail=bad or "%d visiting, %d catch_all path(s)%s" % (n_ok, n_fail, " in the helper %s the body delegates to" % f.get("name") if f is not f0 else ""))
     f = get("cyclic_visitor", "generic_visit")
     if f:
         txt = d.text(f).replace(" ", "").replace("\n", "")
